@@ -7,7 +7,8 @@
 From Coq Require Import ZArith List Bool Sorted Permutation.
 From Verif Require Import Reloc.RelocModel Sections.SectionModel Sections.ChunkModel Sections.ChunkProofs Sections.JitReloc
   Sections.JitRelocProofs Sections.SectionProofs Sections.SectionTable Sections.CopyProofs
-  Sections.ShrinkProofs Sections.StableProofs Sections.CoverProofs Sections.SettleProofs Sections.SectionSummary Sections.SectionExamples.
+  Sections.ShrinkProofs Sections.StableProofs Sections.CoverProofs Sections.SettleProofs Sections.SectionSummary Sections.SectionExamples
+  Sections.FlagsModel Sections.FlagsProofs Sections.WidthModel Sections.WidthProofs.
 Import ListNotations.
 Local Open Scope Z_scope.
 
@@ -361,3 +362,49 @@ Theorem C10_example_relocate_abs : exists h2,
   map sdata h2 = [ [21; 0; 64; 0; 0; 0; 0; 0; 24; 0; 64; 0; 0; 0; 0; 0]; [1; 2; 3; 4; 5]; []; [] ].
 Proof. exact ex_relocate_abs. Qed.
 Print Assumptions C10_example_relocate_abs.
+
+(* ---- 32-bit size_t (model only: no 32-bit runtime in the sandbox).  Offsets / virtual sizes are uint64_t on every target, so
+   flatten and all layout theorems are width independent; the size_t-typed parts are code_size's result and two casts in
+   copy_flattened_data (WidthModel.v, sz = bits of size_t; SectionModel.v is sz = 64) ---- *)
+Theorem C10_code_size_width : forall sz h, 0 < sz <= 64 ->
+  code_size_w sz h = Z.min (code_size h) (2 ^ sz - 1) /\ code_size_w 64 h = code_size h.
+Proof. exact (fun sz h H => conj (code_size_w_min sz h H) (code_size_w_64 h)). Qed.
+Print Assumptions C10_code_size_width.
+
+(* copy_flattened_data on an sz-bit target IS the 64-bit model (so C10_copy_refuses_small / _never_writes_outside / _exact hold
+   verbatim) whenever the virtual sizes fit size_t - which every flattened holder whose code size fits size_t satisfies *)
+Theorem C10_copy_width : forall sz,  0 < sz ->
+  (forall h mem dst ps pt, 0 <= dst < 2 ^ sz ->
+     Forall (fun s => 0 <= svsize s < 2 ^ sz /\ 0 <= sbsize s /\ 0 <= soff s) h ->
+     copy_flat_w sz h mem dst ps pt = copy_flat h mem dst ps pt) /\
+  (forall h h', wf_holder h -> flatten h = (EOk, h') -> code_size h' < 2 ^ sz ->
+     Forall (fun s => 0 <= svsize s < 2 ^ sz /\ 0 <= sbsize s /\ 0 <= soff s) h').
+Proof.
+  exact (fun sz Hsz => conj (fun h mem dst ps pt Hd Hl => copy_flat_w_eq sz h mem dst ps pt Hsz Hd Hl)
+                            (fun h h' Hwf E Hc => flattened_fits_width sz h h' Hwf E Hsz Hc)).
+Qed.
+Print Assumptions C10_copy_width.
+
+(* ... and outside that range the 32-bit padding computation wraps (virtual size >= 4 GiB is representable on every target):
+   10 bytes of buffer, virtual size 2^32+1, 100-byte destination -> zero-fill length 2^32-9 instead of 90 *)
+Theorem C10_copy_width32_refuted : exists s, sbsize s = 10 /\ svsize s = 4294967297 /\ soff s = 0 /\
+  pad_w 32 true 100 s = 4294967287 /\ pad_w 64 true 100 s = 90.
+Proof. exact pad_w32_refuted. Qed.
+Print Assumptions C10_copy_width32_refuted.
+
+(* ---- Section flags (property-adjacent; never influence the layout: the model's sections have no flag field) ---- *)
+Theorem C10_clear_flags : forall f x, 0 <= x < 65536 ->
+  has_flag (clear_flags f x) x = false /\
+  (forall i, 0 <= i < 16 -> Z.testbit (clear_flags f x) i = Z.testbit f i && negb (Z.testbit x i)) /\
+  (forall y, 0 <= f < 65536 -> Z.land x y = 0 -> has_flag (clear_flags f x) y = has_flag f y).
+Proof.
+  exact (fun f x Hx => conj (clear_flags_clears f x Hx) (conj (fun i Hi => clear_flags_bits f x i Hi)
+                                                             (fun y Hf Hd => clear_flags_keeps f x y Hf Hd))).
+Qed.
+Print Assumptions C10_clear_flags.
+
+(* DESIGN 7.8 on the unrepaired tree: clear_flags(kReadOnly) on an executable section sets every other flag *)
+Theorem C10_clear_flags_pinned_refuted :
+  clear_flags_pinned 1 2 = 65533 /\ has_flag (clear_flags_pinned 1 2) 4 = true /\ clear_flags 3 2 = 1.
+Proof. exact clear_flags_pinned_refuted. Qed.
+Print Assumptions C10_clear_flags_pinned_refuted.
